@@ -1,4 +1,6 @@
 import AsherahVerif.Proofs.Gcm
+import AsherahVerif.Proofs.GcmVectors
+import AsherahVerif.Proofs.CodecChain
 import AsherahVerif.Model.Aes
 import AsherahVerif.Model.Codec
 import AsherahVerif.Generated.Fmt
@@ -6,6 +8,19 @@ import AsherahVerif.Expected.Fmt
 /-
 C18 — stored and wire formats follow the documented, cross-language layout
 (and the byte-level GCM theorems reused by C07 / C01).
+
+The statements are about the REFERENCE implementation written from the documentation
+(Model/Gcm.lean, Model/Codec.lean): its encoders and decoders are mutually inverse on every record,
+byte string, id and hierarchy, the AEAD layout is ciphertext ‖ tag(16) ‖ nonce(12) and is opened
+exactly when it is a seal output — for every block function.  That the Go SDK implements the same
+formats is the tie: regenerated facts (`*_match*` theorems below, `decide` over data extracted from
+/repo on every run) and the two-directional differential correspondence of go/cmd/hxfmt against this
+reference (SDK writes → reference decrypts the whole chain; reference writes → SDK decrypts; the same
+records through encoding/json, SQL row text, both DynamoDB marshalers, the protobuf mapping).
+
+Everything is proved at full strength except where the code itself is lossy, which is stated as a
+counterexample: the protobuf mapping drops `Revoked` (`pb_drops_revoked_counterexample`), key-id
+parsing is ambiguous as soon as a component contains '_' (`keyid_ambiguous_counterexample`).
 -/
 namespace AsherahVerif.Props.C18
 open AsherahVerif AsherahVerif.Gcm
@@ -19,31 +34,14 @@ assumption), every key, every 12-byte nonce, every payload (the empty one includ
 `gcm_open_seal_too_large`). -/
 theorem gcm_open_seal {κ : Type} (E : κ → Block → Block) (k : κ) (n p : Bytes)
     (hn : n.length = 12) (hp : p.length ≤ maxDataSize) :
-    gcmOpen E k (gcmSeal E k n p) = some p := by
-  unfold gcmOpen gcmSeal
-  rw [gcmOpenE_layout E k _ _ n (tag_length ..) hn (by rw [encBody_length]; exact hp)]
-  simp only [beq_self_eq_true, if_true, encBody, ctrXor_ctrXor]
+    gcmOpen E k (gcmSeal E k n p) = some p :=
+  gcmOpen_gcmSeal E k n p hn hp
 
 /-- the same through the Go-level entry points (key set-up included): whatever `Encrypt` returns,
 `Decrypt` with the same key bytes gives the payload back. -/
 theorem goDecrypt_goEncrypt (C : Cipher) (key n p c : Bytes) (hn : n.length = 12)
-    (h : goEncrypt C key n p = .ok c) : goDecrypt C key c = .ok p := by
-  unfold goEncrypt at h; unfold goDecrypt
-  cases hk : C.prep key with
-  | none => rw [hk] at h; cases h
-  | some k =>
-    rw [hk] at h; simp only at h ⊢
-    unfold gcmSealE at h
-    split at h
-    · cases h
-    · rename_i hsz
-      injection h with h
-      have := gcm_open_seal C.E k n p hn (by omega)
-      unfold gcmOpen at this
-      rw [h] at this
-      split at this
-      · rename_i heq; rw [heq]; simp at this; rw [this]
-      · cases this
+    (h : goEncrypt C key n p = .ok c) : goDecrypt C key c = .ok p :=
+  goDecrypt_of_goEncrypt C key n p c hn h
 
 /-- the error CLASS on short input: `|c| < 12` is Decrypt's own "shorter than nonce size",
 `12 ≤ |c| < 28` is gcm.Open's authentication failure. -/
@@ -144,6 +142,223 @@ example : gcmOpen toyE 7 (List.replicate 27 0) = none := open_short _ _ _ (by de
 -- flipping one ciphertext bit of a genuine layout is rejected (toy cipher, concrete).
 set_option maxRecDepth 8000 in
 example : gcmOpen toyE 7 ((gcmSeal toyE 7 (List.replicate 12 1) [1, 2, 3]).set 0 0xFF) = none := by decide
+
+/-! ### NIST AES-256-GCM vectors on the AES instance (kernel-evaluated concrete checks) -/
+
+/-- gcm-spec test case 13 (empty payload) and 14 (one zero block) through `goEncrypt`/`goDecrypt`
+of the model with AES-256: concrete, evaluated by the kernel (Proofs/GcmVectors.lean). -/
+theorem nist_aes256_gcm_vectors :
+    (goEncrypt Aes.cipher GcmVectors.zkey GcmVectors.znonce []).toOption = some GcmVectors.tc13 ∧
+    (goEncrypt Aes.cipher GcmVectors.zkey GcmVectors.znonce (List.replicate 16 0)).toOption = some GcmVectors.tc14 ∧
+    (goDecrypt Aes.cipher GcmVectors.zkey GcmVectors.tc14).toOption = some (List.replicate 16 0) :=
+  ⟨GcmVectors.nist_tc13_seal, GcmVectors.nist_tc14_seal, GcmVectors.nist_tc14_open⟩
+
+/-! ## codec laws of the reference implementation -/
+open AsherahVerif.Codec
+
+/-- **base64** (standard alphabet, padding — what encoding/json uses for `[]byte`): decoding an
+encoding gives the bytes back, for every byte string. -/
+theorem base64_roundtrip (b : Bytes) : b64Decode (b64Encode b) = some b := b64_decode_encode b
+
+/-- **JSON text**: parsing what the printer (Go's member order and escaping) printed gives the value
+back — every value: any nesting, any integers, any strings (quotes, controls, <>&, U+2028/9, astral). -/
+theorem json_roundtrip (v : JV) : parseJson v.print = some v := parseJson_print v
+
+/-- **DataRowRecord JSON**, string level: all records — binary keys and data of any length
+(every padding class), any int64 stamps, any ids, revoked flag, with/without `Key`/`ParentKeyMeta`. -/
+theorem drr_json_roundtrip (r : DRR) : decodeDRR (encodeDRR r) = some r := decodeDRR_encodeDRR r
+
+/-- **EnvelopeKeyRecord JSON** (metastore rows, SQL `key_record`), string level, all records. -/
+theorem ekr_json_roundtrip (r : EKR) : decodeEKR (encodeEKR r) = some r := decodeEKR_encodeEKR r
+
+/-- the structured layer on its own (record ↔ JSON value), independent of the text syntax. -/
+theorem record_value_roundtrips (m : KeyMeta) (e : EKR) (d : DRR) :
+    KeyMeta.fromJson m.toJson = some m ∧ EKR.fromJson e.toJson = some e ∧ DRR.fromJson d.toJson = some d :=
+  ⟨keyMeta_fromJson_toJson m, ekr_fromJson_toJson e, drr_fromJson_toJson d⟩
+
+/-- `Revoked` is emitted only when true, `ParentKeyMeta` only when present, `Key` is the base64 text,
+member order Revoked, Created, Key, ParentKeyMeta — the documented shape, for every record. -/
+theorem ekr_json_shape (e : EKR) :
+    e.toJson = .obj ((if e.revoked then [(nRevoked, JV.bool true)] else []) ++
+      [(nCreated, .num e.created.toInt), (nKey, .str (b64Encode e.key))] ++
+      (match e.parent with
+       | some m => [(nParentKeyMeta, .obj [(nKeyId, .str m.id), (nCreated, .num m.created.toInt)])]
+       | none => [])) := by
+  cases h : e.parent <;> simp [EKR.toJson, KeyMeta.toJson, h]
+
+/-- **SQL row** `encryption_key(id, created, key_record)`: the row built for a record reads back as
+that record, and carries the id and created it was stored under. -/
+theorem sql_row_roundtrip (id : Str) (created : Int64) (e : EKR) :
+    sqlRowDecode (sqlRowOf id created e) = some e ∧ (sqlRowOf id created e).id = id ∧
+    (sqlRowOf id created e).created = created := sqlRowDecode_sqlRowOf id created e
+
+/-- **DynamoDB item, aws-v2 plugin**: item → (Id, record) round trip for all ids/stamps/records. -/
+theorem ddb2_item_roundtrip (id : Str) (created : Int64) (e : EKR) :
+    avToItem (itemToAV id created e) = some (id, e) := avToItem_itemToAV id created e
+
+/-- **DynamoDB item, aws-v1 plugin** (empty strings become NULL on the way in): the `KeyRecord`
+attribute of the stored item decodes to the record. -/
+theorem ddb1_item_roundtrip (id : Str) (created : Int64) (e : EKR) :
+    (match itemToAV1 id created e with
+     | .m kvs => (Codec.lookup nKeyRecord kvs).bind avToEKR
+     | _ => none) = some e ∧
+    avToEKR (ekrToAV1 e) = some e ∧ avToEKR (ekrToAV e) = some e :=
+  ⟨item1_keyRecord id created e, avToEKR_ekrToAV1 e, avToEKR_ekrToAV e⟩
+
+/-- the two plugins' items can be read by each other's decoder (same tree up to "" ↦ NULL). -/
+theorem ddb_cross_version (e : EKR) : avToEKR (ekrToAV1 e) = avToEKR (ekrToAV e) := by
+  rw [avToEKR_ekrToAV1, avToEKR_ekrToAV]
+
+/-- **protobuf mapping**: `toProtobufDRR` then `fromProtobufDRR` returns the record with
+`Revoked := false` (there is no protobuf field for it; no decrypt path reads it) — for every record
+that has `Key` and `ParentKeyMeta`, which is every record `Encrypt` returns. -/
+theorem pb_roundtrip (e : EKR) (m : KeyMeta) (data : Bytes) (hp : e.parent = some m) :
+    toPb ⟨some e, data⟩ = .ok ⟨some ⟨e.created, e.key, some ⟨m.created, m.id⟩⟩, data⟩ ∧
+    fromPb ⟨some ⟨e.created, e.key, some ⟨m.created, m.id⟩⟩, data⟩ = ⟨some { e with revoked := false }, data⟩ :=
+  fromPb_toPb e m data hp
+
+/-- `toProtobufDRR` panics (nil dereference) exactly on records without `Key` or without
+`ParentKeyMeta`; whatever `fromProtobufDRR` builds can be mapped back without panic. -/
+theorem pb_to_panics_iff (d : DRR) :
+    (toPb d = .panic ↔ (d.key = none ∨ ∃ e, d.key = some e ∧ e.parent = none)) ∧
+    (∀ p, ∃ q, toPb (fromPb p) = .ok q) :=
+  ⟨toPb_panic_iff d, toPb_fromPb_ok⟩
+
+/-- the full-strength round trip `fromPb (toPb d) = d` is FALSE for revoked records: -/
+def pb_roundtrip_full : Prop :=
+  ∀ (e : EKR) (m : KeyMeta) (data : Bytes), e.parent = some m →
+    ∀ p, toPb ⟨some e, data⟩ = .ok p → fromPb p = ⟨some e, data⟩
+
+theorem pb_drops_revoked_counterexample : ¬ pb_roundtrip_full := by
+  intro h
+  have := h ⟨true, 0, [], some ⟨[], 0⟩⟩ ⟨[], 0⟩ [] rfl _ rfl
+  exact absurd this (by decide)
+
+/-- **key-id format**: `_SK_<service>_<product>[_<suffix>]`, `_IK_<partition>_<service>_<product>[_<suffix>]`. -/
+theorem keyid_format (pa s p x : Str) :
+    skId s p none = "_SK_".toList ++ s ++ "_".toList ++ p ∧
+    skId s p (some x) = "_SK_".toList ++ s ++ "_".toList ++ p ++ "_".toList ++ x ∧
+    ikId pa s p none = "_IK_".toList ++ pa ++ "_".toList ++ s ++ "_".toList ++ p ∧
+    ikId pa s p (some x) = "_IK_".toList ++ pa ++ "_".toList ++ s ++ "_".toList ++ p ++ "_".toList ++ x := by
+  have h1 : "_".toList = ['_'] := by decide
+  simp [skId, ikId, withSuffix, pSK, pIK, h1]
+
+/-- **key-id parsing is unambiguous exactly under this condition**: when no component contains
+'_', parsing a rendered id gives the components back (SK and IK, with and without suffix). -/
+theorem keyid_parse_roundtrip (k : KeyId)
+    (h : match k with
+      | .sk s p x => '_' ∉ s ∧ '_' ∉ p ∧ (∀ y, x = some y → '_' ∉ y)
+      | .ik pa s p x => '_' ∉ pa ∧ '_' ∉ s ∧ '_' ∉ p ∧ (∀ y, x = some y → '_' ∉ y)) :
+    parseKeyId k.render = some k := by
+  have hSK : '_' ∉ ['S', 'K'] := by decide
+  have hIK : '_' ∉ ['I', 'K'] := by decide
+  cases k with
+  | sk s p x =>
+    obtain ⟨hs, hp, hx⟩ := h
+    cases x with
+    | none =>
+      have : skId s p none = [] ++ '_' :: (['S', 'K'] ++ '_' :: (s ++ '_' :: p)) := by simp [skId, withSuffix, pSK]
+      simp only [KeyId.render, parseKeyId, this]
+      rw [splitU_append _ _ (by simp), splitU_append _ _ hSK, splitU_append _ _ hs, splitU_no _ hp]
+      rfl
+    | some y =>
+      have hy := hx y rfl
+      have : skId s p (some y) = [] ++ '_' :: (['S', 'K'] ++ '_' :: (s ++ '_' :: (p ++ '_' :: y))) := by
+        simp [skId, withSuffix, pSK]
+      simp only [KeyId.render, parseKeyId, this]
+      rw [splitU_append _ _ (by simp), splitU_append _ _ hSK, splitU_append _ _ hs, splitU_append _ _ hp, splitU_no _ hy]
+      rfl
+  | ik pa s p x =>
+    obtain ⟨hpa, hs, hp, hx⟩ := h
+    cases x with
+    | none =>
+      have : ikId pa s p none = [] ++ '_' :: (['I', 'K'] ++ '_' :: (pa ++ '_' :: (s ++ '_' :: p))) := by
+        simp [ikId, withSuffix, pIK]
+      simp only [KeyId.render, parseKeyId, this]
+      rw [splitU_append _ _ (by simp), splitU_append _ _ hIK, splitU_append _ _ hpa, splitU_append _ _ hs, splitU_no _ hp]
+      rfl
+    | some y =>
+      have hy := hx y rfl
+      have : ikId pa s p (some y) = [] ++ '_' :: (['I', 'K'] ++ '_' :: (pa ++ '_' :: (s ++ '_' :: (p ++ '_' :: y)))) := by
+        simp [ikId, withSuffix, pIK]
+      simp only [KeyId.render, parseKeyId, this]
+      rw [splitU_append _ _ (by simp), splitU_append _ _ hIK, splitU_append _ _ hpa, splitU_append _ _ hs,
+        splitU_append _ _ hp, splitU_no _ hy]
+      rfl
+
+/-- without that condition ids are ambiguous: different (partition, service, product[, suffix])
+render to the same id — among components with '_' and between suffixed / unsuffixed naming. -/
+theorem keyid_ambiguous_counterexample :
+    ikId "a_b".toList "c".toList "d".toList none = ikId "a".toList "b_c".toList "d".toList none ∧
+    ikId "a".toList "b".toList "c".toList (some "d".toList) = ikId "a_b".toList "c".toList "d".toList none ∧
+    skId "a".toList "b".toList (some "c".toList) = skId "a_b".toList "c".toList none := by decide
+
+/-- the SK and IK namespaces never collide, whatever the components. -/
+theorem sk_ik_ids_disjoint (pa s p : Str) (x y : Option Str) : skId s p x ≠ ikId pa s p y :=
+  skId_ne_ikId pa s p x y
+
+/-- **AWS KMS envelope JSON** (both KMS plugins): structured round trip incl. the `kmsKeks` array;
+with `json_roundtrip` this is the string-level law as well. -/
+theorem kms_envelope_roundtrip (e : KmsEnvelope) :
+    KmsEnvelope.fromJson e.toJson = some e ∧ (parseJson e.toJson.print).bind KmsEnvelope.fromJson = some e := by
+  refine ⟨kmsEnvelope_fromJson_toJson e, ?_⟩
+  rw [parseJson_print]; exact kmsEnvelope_fromJson_toJson e
+
+/-- **whole hierarchies**: the SK row, IK row and DRR JSON the reference ENCODER builds from any
+keys / 12-byte nonces / ids / stamps / flags / payload are decrypted by the reference DECODER
+(JSON → base64 → master ⊢ SK ⊢ IK ⊢ DRK ⊢ data, rows found by (id, created)) to the payload — for
+every block cipher.  The correspondence shows on every run that the SDK is interchangeable with
+either side. -/
+theorem chain_roundtrip (C : Cipher) (r : BuildReq) (b : Built)
+    (h1 : r.n1.length = 12) (h2 : r.n2.length = 12) (h3 : r.n3.length = 12) (h4 : r.n4.length = 12)
+    (h : buildChain C r = .ok b) :
+    decryptChain C [b.skRow, b.ikRow] r.master b.drr = .ok r.payload :=
+  decryptChain_buildChain C r b h1 h2 h3 h4 h
+
+/-- all codec round trips in one statement (the inventory name of DESIGN.md appendix C). -/
+theorem codec_roundtrips (b : Bytes) (v : JV) (d : DRR) (e : EKR) (id : Str) (c : Int64) :
+    b64Decode (b64Encode b) = some b ∧ parseJson v.print = some v ∧
+    decodeDRR (encodeDRR d) = some d ∧ decodeEKR (encodeEKR e) = some e ∧
+    sqlRowDecode (sqlRowOf id c e) = some e ∧ avToItem (itemToAV id c e) = some (id, e) ∧
+    avToEKR (ekrToAV1 e) = some e ∧ parseInt64Str (intDigits c.toInt) = some c :=
+  ⟨b64_decode_encode b, parseJson_print v, decodeDRR_encodeDRR d, decodeEKR_encodeEKR e,
+   (sqlRowDecode_sqlRowOf id c e).1, avToItem_itemToAV id c e, avToEKR_ekrToAV1 e, parseInt64Str_intDigits c⟩
+
+/-! ### non-vacuity of the codec laws (concrete values, evaluated) -/
+
+def exMeta : KeyMeta := ⟨"_SK_servicefoo_systembar".toList, 1534553054⟩
+def exIK : EKR := ⟨false, 1534553075, [0x4e, 0x25, 0x42, 0x25, 0x31], some exMeta⟩
+def exRevoked : EKR := ⟨true, -1, [], none⟩
+def exDRR : DRR := ⟨some ⟨false, 1534553138, [1, 2, 3, 255], some ⟨"_IK_112313_servicefoo_systembar".toList, 1534553075⟩⟩, [0, 9]⟩
+
+example : String.ofList (encodeEKR exRevoked) = "{\"Revoked\":true,\"Created\":-1,\"Key\":\"\"}" := by decide
+example : String.ofList (encodeEKR exIK) =
+    "{\"Created\":1534553075,\"Key\":\"TiVCJTE=\",\"ParentKeyMeta\":{\"KeyId\":\"_SK_servicefoo_systembar\",\"Created\":1534553054}}" := by
+  decide +kernel
+example : decodeEKR (encodeEKR exIK) = some exIK := ekr_json_roundtrip exIK
+example : decodeDRR (encodeDRR exDRR) = some exDRR := drr_json_roundtrip exDRR
+-- the decoder accepts another member order, white space, explicit defaults and \u escapes
+example : decodeEKR " { \"Key\" : \"TiVCJTE=\" ,\n \"Revoked\":false, \"Created\" :1534553075 }".toList
+    = some ⟨false, 1534553075, [0x4e, 0x25, 0x42, 0x25, 0x31], none⟩ := by decide +kernel
+example : b64Encode [0x4e, 0x25, 0x42] = "TiVC".toList ∧ b64Decode "TiVCJQ==".toList = some [0x4e, 0x25, 0x42, 0x25] ∧
+    b64Decode "TiVCJR==".toList = none ∧ b64Decode "TiV".toList = none := by decide
+example : ikId "112313".toList "servicefoo".toList "systembar".toList none = "_IK_112313_servicefoo_systembar".toList := by decide
+example : parseKeyId "_IK_112313_servicefoo_systembar_us-west-2".toList =
+    some (.ik "112313".toList "servicefoo".toList "systembar".toList (some "us-west-2".toList)) := by decide
+example : toPb ⟨none, []⟩ = .panic := rfl
+example : avToItem (itemToAV "id".toList 5 exRevoked) = some ("id".toList, exRevoked) := ddb2_item_roundtrip _ _ _
+-- a toy cipher hierarchy: built, then decrypted through all layers (instance of `chain_roundtrip`)
+def toyCipher : Cipher := { κ := UInt64, prep := fun b => some (UInt64.ofNat b.length), E := toyE }
+def toyReq : BuildReq := {
+  master := [1, 2], sk := [3], ik := [4, 5], drk := [6, 7, 8],
+  n1 := List.replicate 12 1, n2 := List.replicate 12 2, n3 := List.replicate 12 3, n4 := List.replicate 12 4,
+  partition := "p".toList, service := "s".toList, product := "q\"<".toList, suffix := some "us".toList,
+  skCreated := 10, ikCreated := -20, drkCreated := 30, skRevoked := true, ikRevoked := false, payload := [42, 43] }
+example : ((buildChain toyCipher toyReq).toOption.bind fun b =>
+    (decryptChain toyCipher [b.skRow, b.ikRow] toyReq.master b.drr).toOption) = some [42, 43] := by decide +kernel
+-- … and with the rows swapped or the IK row missing the decoder reports the missing key, it does not guess
+example : ((buildChain toyCipher toyReq).toOption.map fun b =>
+    (decryptChain toyCipher [b.skRow] toyReq.master b.drr).toOption) = some none := by decide +kernel
 
 /-! ## the tie to the source: regenerated facts = what the model assumes
 
